@@ -75,5 +75,34 @@ let cmd_taptweak t =
   let (tw, after) = tweak_priv pkodd pkx (scalar_of_bytes d) root in
   Printf.printf "tw=%s after=%s\n" (hex_of_bytes (scalar_to_bytes tw)) (hex_of_bytes (scalar_to_bytes after))
 
+(* tapkeys <n> (<ver> <script>)*n <k> (<key33> <qx> <qodd>)*k <m> (<key index> <leaf index>)*m
+   one tree, several internal keys; the model is a function of (leaf entry, key): order-free *)
+let cmd_tapkeys t =
+  let leaves = next_list t (fun t ->
+    let v = byte_of_hex1 (next t) in let s = next_hex t in { tlf_version = v; tlf_script = s }) in
+  let keys = Array.of_list (next_list t (fun t ->
+    let k33 = next_hex t in let qx = next_hex t in let qodd = next_int t = 1 in
+    ((match k33 with _ :: r -> r | [] -> []), qx, qodd))) in
+  let ops = next_list t (fun t -> let k = next_int t in let l = next_int t in (k, l)) in
+  match assemble_c leaves with
+  | Done (Some root, st) ->
+    let rooth = tnode_hash root in
+    let sta = Array.of_list st in
+    let res = Stdlib.List.map (fun (k, l) ->
+      let (keyx, qx, qodd) = keys.(k) in
+      let (e : proof_entry) = sta.(l) in
+      let s = ser_cb (to_cb e keyx qodd) in
+      let v = (match parse_cb (fun _ -> true) s with
+        | Some c -> cb_root_c c e.pe_leaf.tlf_script = rooth && verify_with_oracle c qx qx qodd
+        | None -> false) in
+      (hex_of_bytes s, b2s v)) ops in
+    Printf.printf "res=ok root=%s cbs=%s ver=%s\n" (hex_of_bytes rooth)
+      (Stdlib.String.concat "," (Stdlib.List.map fst res))
+      (Stdlib.String.concat "" (Stdlib.List.map snd res))
+  | Done (None, _) -> Printf.printf "res=ok root=none\n"
+  | GoPanic -> Printf.printf "panic\n"
+  | OutOfFuel -> Printf.printf "out-of-fuel\n"
+
 let () =
+  register "tapbig" cmd_taptree; register "tapkeys" cmd_tapkeys;
   register "taptree" cmd_taptree; register "tapcb" cmd_tapcb; register "taptweak" cmd_taptweak
